@@ -392,7 +392,7 @@ def main(argv):
             "distinct_nontrivial": len(dv["distinct"]) + mc.get("distinct", 0),
             "rule": "bounded TLA+ models enumerate their scope completely (exhaustive within the stated bounds) and every "
                     "emitted transition is replayed on the real types; drivers run word-boundary-lattice and seeded random "
-                    "cases on a rotating matrix of the 16 instantiations x operand instantiations x operator forms x "
+                    "cases on a rotating matrix of the 17 instantiations x operand instantiations x operator forms x "
                     "preparations and log one event per DISTINCT observed outcome, each validated by TLC against Trace.tla; "
                     "distinct_nontrivial counts distinct (operation, subject bits, operand bits, arguments) tuples among "
                     "validated events / replayed transitions, excluding those whose subject and operand are empty or all zero",
